@@ -339,6 +339,13 @@ def _p_values_worker(
         node_1 = f'{level}/{sibling_pair[1]}'
         node_2 = f'{level}/{sibling_pair[2]}'
 
+        if (cluster_stats[node_1]['n_cells'] < 2
+                or cluster_stats[node_2]['n_cells'] < 2):
+            # no test is possible with a cluster of one cell;
+            # leave this pair without markers (as
+            # score_differential_genes does with n_cells_min=2)
+            continue
+
         p_values = diffexp_p_values_from_stats(
             node_1=node_1,
             node_2=node_2,
